@@ -413,6 +413,10 @@ fn run_case(seed: u64, idx: usize, bin: &str, rt: &std::sync::Arc<tokio::runtime
             srv.kill9();
         }
         if let Err(e) = srv.start() {
+            if !e.contains("exited during start-up") {
+                out.inconclusive(format!("case {}: restart watchdog: {}", idx, e));
+                return;
+            }
             viol!("restart-failed", "case {}: server does not start after a {} stop at a quiescent point: {}", idx, if graceful { "graceful" } else { "SIGKILL" }, e);
         }
         match mk(&srv) {
